@@ -99,4 +99,14 @@ theorem crc_pointer_single_writer :
       (w.1 == "libmy/crc32c.c" && w.2.1 == "my_crc32c_runtime_detection" &&
         (w.2.2 == "my_crc32c_sse42" || w.2.2 == "my_crc32c_slicing"))) = true := by decide
 
+/-- the wake-up structure of threadpool.c as the proofs assume it: in particular the result handler signals `pool->c` after
+    EVERY push onto the idle list (no enclosing condition) — the hypothesis of `TpShare.share_no_lost_wakeup` and of the
+    single-client machine's `giveBack` step; the worker's and the dispatcher's queue signals sit under the
+    unordered / ordered tests, everything else is unconditional -/
+theorem signal_sites_as_modelled :
+    signalSites = [("thread_worker", "rq", "if (rq != NULL)"), ("thread_worker", "thr", "else"),
+                   ("threadpool_dispatch", "thr", ""), ("threadpool_dispatch", "rq", "if (ordered)"),
+                   ("threadpool_destroy", "thr", "while (pool->count > 0)"), ("resultq_next", "pool", ""),
+                   ("resultq_finish", "rq", "")] := by decide
+
 end Mtbl.Owner
